@@ -23,32 +23,33 @@ func (p *Program) Source() string { return Source(p.Nodes) }
 
 // Profile selects the constructs a generator may use.
 type Profile struct {
-	MaxNodes   int
-	MaxDepth   int
-	Loops      bool
-	Tablerow   bool
-	Cond       bool
-	Case       bool
-	Assign     bool
-	Capture    bool
-	Cycle      bool
-	Jumps      bool // break / continue
-	Comment    bool
-	Raw        bool
-	MapLoops   bool // for over maps (order-sensitive: only for checks that do not use the model's output)
-	Filters    bool
-	WSText     bool // text chunks rich in whitespace (C13)
-	NoArith    bool
-	Failing    bool // may contain one construct that fails at render time
-	BigMaps    bool // bind maps with 2..12 entries (C02)
-	Ticks      bool // conditions may pass through the counting filter `tick`
-	NumPrint   bool // numeric variables only where C18 names them: print, comparison, case/when, arithmetic (not as index, limit, offset or range endpoint)
-	LoopRecord bool // a loop body may keep its forloop record in a variable (lf) and read it later
-	BareJumps  bool // break / continue may stand directly in a loop body, not only under an if
-	PlainPunct bool // no [ ] < > in tags and objects (C19: those characters may be delimiters)
-	TypedNames bool // assignments use one variable name per kind (C18: role-typed programs)
-	OrdMap     bool // use the ordered-map binding ms (lookup and size) and the byte-slice binding bs (print)
-	PlainText  string
+	MaxNodes         int
+	MaxDepth         int
+	Loops            bool
+	Tablerow         bool
+	Cond             bool
+	Case             bool
+	Assign           bool
+	Capture          bool
+	Cycle            bool
+	Jumps            bool // break / continue
+	Comment          bool
+	Raw              bool
+	MapLoops         bool // for over maps (order-sensitive: only for checks that do not use the model's output)
+	Filters          bool
+	WSText           bool // text chunks rich in whitespace (C13)
+	NoArith          bool
+	Failing          bool // may contain one construct that fails at render time
+	BigMaps          bool // bind maps with 2..12 entries (C02)
+	Ticks            bool // conditions may pass through the counting filter `tick`
+	NumPrint         bool // numeric variables only where C18 names them: print, comparison, case/when, arithmetic (not as index, limit, offset or range endpoint)
+	CapturePrintOnly bool // captured text is only ever printed, never measured or compared (C13: its white space may legitimately differ)
+	LoopRecord       bool // a loop body may keep its forloop record in a variable (lf) and read it later
+	BareJumps        bool // break / continue may stand directly in a loop body, not only under an if
+	PlainPunct       bool // no [ ] < > in tags and objects (C19: those characters may be delimiters)
+	TypedNames       bool // assignments use one variable name per kind (C18: role-typed programs)
+	OrdMap           bool // use the ordered-map binding ms (lookup and size) and the byte-slice binding bs (print)
+	PlainText        string
 }
 
 // FullProfile enables everything the model can follow.
@@ -253,6 +254,9 @@ func (g *genv) node(depth int) *N {
 	if g.p.Capture && deep {
 		opts = append(opts, opt{1, func() *N { return g.capture(depth) }})
 	}
+	if g.p.CapturePrintOnly {
+		opts = append(opts, opt{1, func() *N { return Obj(Var([]string{"c1", "c2", "ok?"}[g.pick("cprint", 3)])) }})
+	}
 	if g.p.Cond && deep {
 		opts = append(opts, opt{3, func() *N { return g.ifNode(depth) }})
 	}
@@ -350,7 +354,7 @@ func (g *genv) assign() *N {
 
 func (g *genv) capture(depth int) *N {
 	name := []string{"c1", "c2", "ok?", "s"}[g.pick("cname", 4)]
-	if name == "s" && g.anyLoop > 0 {
+	if name == "s" && (g.anyLoop > 0 || g.p.CapturePrintOnly) {
 		name = "c1" // a captured variable printed inside its own capture body in a loop doubles on every iteration
 	}
 	// break/continue escaping a capture body is excluded by construction
